@@ -207,6 +207,8 @@ def run_job(job, res, mod=None):
             continue
         break
     job.wall = time.time() - t0
+    res.dist('build_flavour', job.flavour)
+    res.stat('jobs_on_' + job.flavour, 1)
     if timed_out:
         # still take what it reported, but the job is inconclusive
         tmp = Result(res.prop)
@@ -234,6 +236,32 @@ def run_job(job, res, mod=None):
                 res.inconclusive.append('%s: exit %s without OK: %s' % (job.name, rc, err.strip()[-400:]))
     else:
         res.jobs_ok += 1
+
+
+ALT_FLAVOURS = ('alt-mul15', 'alt-32', 'alt-ctmul', 'os')
+
+
+def with_alt_flavours(jobs, tier, seed, only=None):
+    """The same jobs on the other arithmetic configurations of the library (vbuild.FLAVOURS alt-*, os):
+    every ASan job whose rotating index selects a flavour is repeated there.  quick: 4 in 16 jobs get one
+    copy (one per flavour), thorough: every job gets one copy (a quarter of the workload per flavour)."""
+    mod = 16 if tier == 'quick' else 4
+    out = list(jobs)
+    n = 0
+    for j in jobs:
+        if j.flavour != 'asan' or j.wrapper or (only and not only(j)):
+            continue
+        fi = (n + int(seed)) % mod
+        n += 1
+        if fi >= len(ALT_FLAVOURS):
+            continue
+        d = j.desc()
+        d['name'] = j.name + '@' + ALT_FLAVOURS[fi]
+        d['flavour'] = ALT_FLAVOURS[fi]
+        c = Job.from_desc(d)
+        c.stdin = j.stdin
+        out.append(c)
+    return out
 
 
 def build_jobs(jobs):
